@@ -11,8 +11,9 @@ theorem cntHold_put (o : Nat) (hs : Holders) (h : Nat) (x : Option Val) :
 
 theorem cntStore_put (o : Nat) (st : Store) (p : Nat) (x : Option Obj) :
     cntStore o (put st p x) + wt (fun ob => cntVs o ob.slots) (get st p)
-      = cntStore o st + wt (fun ob => cntVs o ob.slots) x :=
-  sumBy_put (fun ob => cntVs o ob.slots) st p x
+      = cntStore o st + wt (fun ob => cntVs o ob.slots) x := by
+  unfold cntStore
+  exact sumBy_put (fun ob : Obj => cntVs o ob.slots) st p x
 
 theorem rcOf_put (st : Store) (p : Nat) (x : Option Obj) (q : Nat) :
     rcOf (put st p x) q = if p = q then wt Obj.rc x else rcOf st q := by
@@ -136,23 +137,22 @@ theorem agree_upd {s s' : State} {hs hs' : SHolders} (h : Nat)
     (hho : ∀ j, j ≠ h → get s'.hold j = get s.hold j)
     (hso : ∀ j, j ≠ h → get hs' j = get hs j)
     (hr : ∀ j v t, j ≠ h → get s.hold j = some v → get hs j = some t → Rep s.store v t → Rep s'.store v t)
-    (hxy : match get s'.hold h, get hs' h with
-      | none, none => True
-      | some v, some t => Rep s'.store v t
-      | _, _ => False) :
+    (hxy : (get s'.hold h = none ↔ get hs' h = none) ∧
+      ∀ v t, get s'.hold h = some v → get hs' h = some t → Rep s'.store v t) :
     Agree s' hs' := by
   intro j
   by_cases e : j = h
   · subst e; exact hxy
   · rw [hho j e, hso j e]
-    have := hA j
-    cases hv : get s.hold j with
-    | none => rw [hv] at this; cases ht : get hs j with
-      | none => trivial
-      | some t => rw [ht] at this; exact this
-    | some v => rw [hv] at this; cases ht : get hs j with
-      | none => rw [ht] at this; exact this
-      | some t => rw [ht] at this; exact hr j v t e hv ht this
+    exact ⟨(hA j).1, fun v t hv ht => hr j v t e hv ht ((hA j).2 v t hv ht)⟩
+
+/-- only the store changed -/
+theorem agree_store {s s' : State} {hs : SHolders} (hA : Agree s hs) (hh : s'.hold = s.hold)
+    (hr : ∀ j v t, get s.hold j = some v → get hs j = some t → Rep s.store v t → Rep s'.store v t) :
+    Agree s' hs := by
+  intro j
+  rw [hh]
+  exact ⟨(hA j).1, fun v t hv ht => hr j v t hv ht ((hA j).2 v t hv ht)⟩
 
 theorem agree_holdVal {s : State} {hs : SHolders} (hA : Agree s hs) (h : Nat) :
     Rep s.store (holdVal s.hold h) (sholdVal hs h) := by
@@ -160,15 +160,11 @@ theorem agree_holdVal {s : State} {hs : SHolders} (hA : Agree s hs) (h : Nat) :
   unfold holdVal sholdVal
   cases hv : get s.hold h with
   | none =>
-    rw [hv] at this
-    cases ht : get hs h with
-    | none => simp [Rep]
-    | some t => rw [ht] at this; exact this.elim
+    rw [this.1.mp hv]; simp [Rep]
   | some v =>
-    rw [hv] at this
     cases ht : get hs h with
-    | none => rw [ht] at this; exact this.elim
-    | some t => rw [ht] at this; simpa using this
+    | none => rw [this.1.mpr ht] at hv; cases hv
+    | some t => simpa using this.2 v t hv ht
 
 theorem rep_resolve {s : State} {hs : SHolders} (hA : Agree s hs) (self : Nat) {olds : List Val} {oldts : List Tree}
     (ho : RepL s.store olds oldts) (src : Src) :
@@ -218,14 +214,20 @@ theorem agree_unbind {s : State} {hs : SHolders} (hA : Agree s hs) (h : Nat) :
 /-! ### releasing pending references -/
 
 theorem decLoop_spec (n : Nat) : ∀ (s : State) (hs : SHolders), Inv s → Agree s hs →
-    Inv (decLoop n s) ∧ Agree (decLoop n s) hs ∧ (decLoop n s).hold = s.hold := by
+    Inv (decLoop n s) ∧ Agree (decLoop n s) hs ∧ (decLoop n s).hold = s.hold ∧
+      (s.pend = [] ∨ sumBy Obj.rc s.store < n → (decLoop n s).pend = []) := by
   induction n with
-  | zero => intro s hs hI hA; exact ⟨hI, hA, rfl⟩
+  | zero =>
+    intro s hs hI hA
+    refine ⟨hI, hA, rfl, ?_⟩
+    intro h; rcases h with h | h
+    · exact h
+    · omega
   | succ n ih =>
     intro s hs hI hA
     unfold decLoop
     cases hp : s.pend with
-    | nil => exact ⟨hI, hA, rfl⟩
+    | nil => exact ⟨hI, hA, rfl, fun _ => hp⟩
     | cons o rest =>
       simp only
       have hio := hI o
@@ -234,7 +236,8 @@ theorem decLoop_spec (n : Nat) : ∀ (s : State) (hs : SHolders), Inv s → Agre
       cases hg : get s.store o with
       | none =>
         exfalso
-        simp [rcOf, hg, wt] at hio
+        have : rcOf s.store o = 0 := by simp [rcOf, hg, wt]
+        simp at hio; omega
       | some ob =>
         simp only
         have hrc : rcOf s.store o = ob.rc := by simp [rcOf, hg, wt]
@@ -257,29 +260,25 @@ theorem decLoop_spec (n : Nat) : ∀ (s : State) (hs : SHolders), Inv s → Agre
             · subst e; simp only [if_true, wt] at hx ⊢; omega
             · simp only [e, if_false] at hx ⊢; omega
           have hA' : Agree { s with store := put s.store o none, pend := refsOf ob.slots ++ rest } hs := by
-            apply agree_upd 0 hA
-            · intro j _; rfl
-            · intro j _; rfl
-            · intro j v t _ hv _ hr
-              apply Rep_frame (b := o) _ _ v t (holder_ne_of_cntHold_zero hH hv) hr
-              · intro p ob' hp' hne
-                exact ⟨ob', by simp only; rw [get_put_ne _ _ _ _ (Ne.symm hne)]; exact hp', rfl, rfl⟩
-              · intro p ob' hp' _; exact slots_zero_of_cntStore_zero hS hp'
-            · have := hA 0
-              cases hv : get s.hold 0 with
-              | none => rw [hv] at this; simp only; rw [hv]; exact this
-              | some v =>
-                rw [hv] at this; simp only; rw [hv]
-                cases ht : get hs 0 with
-                | none => rw [ht] at this; exact this
-                | some t =>
-                  rw [ht] at this
-                  apply Rep_frame (b := o) _ _ v t (holder_ne_of_cntHold_zero hH hv) this
-                  · intro p ob' hp' hne
-                    exact ⟨ob', by simp only; rw [get_put_ne _ _ _ _ (Ne.symm hne)]; exact hp', rfl, rfl⟩
-                  · intro p ob' hp' _; exact slots_zero_of_cntStore_zero hS hp'
-          obtain ⟨a, b, c⟩ := ih _ hs hI' hA'
-          exact ⟨a, b, c⟩
+            apply agree_store hA
+            · rfl
+            intro j v t hv _ hr
+            apply Rep_frame (b := o) _ _ v t (holder_ne_of_cntHold_zero hH hv) hr
+            · intro p ob' hp' hne
+              exact ⟨ob', by simp only; rw [get_put_ne _ _ _ _ (Ne.symm hne)]; exact hp', rfl, rfl⟩
+            · intro p ob' hp' _; exact slots_zero_of_cntStore_zero hS hp'
+          obtain ⟨a, b, c, e⟩ := ih _ hs hI' hA'
+          refine ⟨a, b, c, ?_⟩
+          intro hfuel
+          apply e
+          right
+          rcases hfuel with hfuel | hfuel
+          · cases hfuel
+          · have hsum := sumBy_put Obj.rc s.store o none
+            rw [hg] at hsum
+            simp only [wt] at hsum
+            have : ob.rc = 1 := by simp at hio; omega
+            simp only; omega
         · simp only [hle, if_false]
           have hI' : Inv { s with store := put s.store o (some { ob with rc := ob.rc - 1 }), pend := rest } := by
             intro x
@@ -295,22 +294,33 @@ theorem decLoop_spec (n : Nat) : ∀ (s : State) (hs : SHolders), Inv s → Agre
           have hE : Ext s.store (put s.store o (some { ob with rc := ob.rc - 1 })) :=
             ext_put_same hg rfl rfl
           have hA' : Agree { s with store := put s.store o (some { ob with rc := ob.rc - 1 }), pend := rest } hs := by
-            intro j
-            have := hA j
-            simp only
-            cases hv : get s.hold j with
-            | none => rw [hv] at this; exact this
-            | some v =>
-              rw [hv] at this
-              cases ht : get hs j with
-              | none => rw [ht] at this; exact this
-              | some t => rw [ht] at this; exact Rep_mono hE v t this
-          obtain ⟨a, b, c⟩ := ih _ hs hI' hA'
-          exact ⟨a, b, c⟩
+            apply agree_store hA
+            · rfl
+            intro j v t _ _ hr
+            exact Rep_mono hE v t hr
+          obtain ⟨a, b, c, e⟩ := ih _ hs hI' hA'
+          refine ⟨a, b, c, ?_⟩
+          intro hfuel
+          apply e
+          right
+          rcases hfuel with hfuel | hfuel
+          · cases hfuel
+          · have hsum := sumBy_put Obj.rc s.store o (some { ob with rc := ob.rc - 1 })
+            rw [hg] at hsum
+            simp only [wt] at hsum
+            simp only; omega
 
 theorem settle_spec {s : State} {hs : SHolders} (hI : Inv s) (hA : Agree s hs) :
     Inv (settle s) ∧ Agree (settle s) hs :=
-  let ⟨a, b, _⟩ := decLoop_spec (fuelFor s) s hs hI hA
+  let ⟨a, b, _, _⟩ := decLoop_spec (fuelFor s) s hs hI hA
   ⟨a, b⟩
+
+/-- the work list is empty after `settle`: every release has been performed before the next operation
+(and its uniqueness test) runs, as in the real code where a drop completes before the call returns -/
+theorem settle_pend {s : State} {hs : SHolders} (hI : Inv s) (hA : Agree s hs) : (settle s).pend = [] := by
+  obtain ⟨_, _, _, e⟩ := decLoop_spec (fuelFor s) s hs hI hA
+  apply e
+  right
+  unfold fuelFor; omega
 
 end SteelVerif.C03
